@@ -57,6 +57,10 @@ type substrInt struct {
 	sub string
 	n   int
 }
+type substrFn struct {
+	suffix string
+	fn     *ssa.Function
+}
 type substrList struct {
 	sub  string
 	list []string
@@ -70,6 +74,7 @@ type Harness struct {
 	stubs      map[string]*ssa.Function
 	merges     map[string]bool
 	havocFuncs map[string]*ssa.Function
+	havocField []substrFn
 	sliceLens  []substrInt
 	nilables   []string
 	nonnil     []string
@@ -442,6 +447,9 @@ func (h *Harness) apply(fd *fileDirectives, pkg *ssa.Package) {
 		case "havoc":
 			i := indexOf(t, "->")
 			h.havocFuncs[strings.Join(t[1:i], " ")] = h.findFunc(t[i+1], pkg, fd)
+		case "havocfield":
+			i := indexOf(t, "->")
+			h.havocField = append(h.havocField, substrFn{strings.Join(t[1:i], " "), h.findFunc(t[i+1], pkg, fd)})
 		case "maporders":
 			h.P.mapOrders = true
 		case "maxpaths":
